@@ -139,7 +139,10 @@ Tape::Handle IntervalEvaluator::push(const Tape::Handle& tape)
             {
                 return Tape::KEEP_A;
             }
-            else if (i[b].lower() > i[a].upper())
+            // max(a, b) is a (not b) whenever either operand is NaN, so b
+            // may only replace the clause if neither can be NaN
+            else if (i[b].lower() > i[a].upper() &&
+                     i[a].isSafe() && i[b].isSafe())
             {
                 return Tape::KEEP_B;
             }
@@ -151,7 +154,10 @@ Tape::Handle IntervalEvaluator::push(const Tape::Handle& tape)
             {
                 return Tape::KEEP_A;
             }
-            else if (i[a].lower() > i[b].upper())
+            // min(a, b) is a (not b) whenever either operand is NaN, so b
+            // may only replace the clause if neither can be NaN
+            else if (i[a].lower() > i[b].upper() &&
+                     i[a].isSafe() && i[b].isSafe())
             {
                 return Tape::KEEP_B;
             }
